@@ -95,6 +95,17 @@ fn workload(rng: &mut Rng, file_size: u64) -> Vec<Op> {
             lens[i] += take;
             left -= take;
         }
+        // one batch in six ends (or starts) with an empty payload: a record that is nothing
+        // but its 12-byte header
+        let mut lens = lens;
+        if rng.chance(1, 6) {
+            if rng.chance(3, 4) {
+                lens.push(0);
+            } else {
+                lens.insert(0, 0);
+            }
+        }
+        let nrec = lens.len();
         let pos = if rng.chance(1, 8) { Some(next[&q] + rng.range(0, 5)) } else { None };
         let start = pos.unwrap_or(next[&q]);
         next.insert(q.clone(), start + nrec as u64);
@@ -111,23 +122,35 @@ fn judge(snap: &Snapshot, batches: &[Batch], trunc: &BTreeMap<String, u64>) -> R
     for b in batches {
         let n = b.hashes.len() as u64;
         let q = snap.queues.get(&b.queue);
-        let mut present: Vec<bool> = Vec::with_capacity(n as usize);
+        // Some(true/false) = decided by content; None = an EMPTY record at a position where a
+        // batch of another incarnation of the queue also has an empty record (empty payloads
+        // do not identify themselves): resolved below in favour of consistency
+        let mut seen: Vec<Option<bool>> = Vec::with_capacity(n as usize);
         for i in 0..n {
             let p = b.first + i;
             let rec = q.and_then(|q| q.recs.binary_search_by_key(&p, |r| r.pos).ok().map(|ix| &q.recs[ix]));
+            let other_has = |hash: u64| batches.iter().any(|o| o.queue == b.queue && o.inc != b.inc && p >= o.first && p < o.first + o.hashes.len() as u64 && o.hashes[(p - o.first) as usize] == hash);
             match rec {
-                Some(r) if r.hash == b.hashes[i as usize] => present.push(true),
+                Some(r) if r.hash == b.hashes[i as usize] => {
+                    if r.len == 0 && other_has(r.hash) {
+                        seen.push(None);
+                    } else {
+                        seen.push(Some(true));
+                    }
+                }
                 // the position holds a record of a batch of another incarnation of the queue
-                Some(r) if batches.iter().any(|o| o.queue == b.queue && o.inc != b.inc && p >= o.first && p < o.first + o.hashes.len() as u64 && o.hashes[(p - o.first) as usize] == r.hash) => present.push(false),
+                Some(r) if other_has(r.hash) => seen.push(Some(false)),
                 Some(r) => {
                     return Err((
                         "batch-record-altered".into(),
                         json!({"batch_op": b.op, "queue": short(&b.queue), "position": p, "recovered_len": r.len}),
                     ))
                 }
-                None => present.push(false),
+                None => seen.push(Some(false)),
             }
         }
+        let any_definite = seen.iter().any(|x| *x == Some(true));
+        let present: Vec<bool> = seen.iter().map(|x| x.unwrap_or(any_definite)).collect();
         let cnt = present.iter().filter(|x| **x).count() as u64;
         if cnt == 0 {
             none += 1;
